@@ -3,8 +3,13 @@ mod c02;
 mod c03;
 mod c04;
 mod c05;
+mod c06;
+mod c10;
 mod sweep;
 mod c11;
+mod c12;
+mod c13;
+mod c14;
 mod ctx;
 mod drv;
 mod gen;
@@ -26,6 +31,11 @@ fn dispatch_run(prop: &str, ctx: &mut Ctx) -> bool {
         "C03" => c03::run(ctx),
         "C04" => c04::run(ctx),
         "C05" => c05::run(ctx),
+        "C06" => c06::run(ctx),
+        "C10" => c10::run(ctx),
+        "C12" => c12::run(ctx),
+        "C13" => c13::run(ctx),
+        "C14" => c14::run(ctx),
         _ => return false,
     }
     true
@@ -39,6 +49,11 @@ fn dispatch_replay(prop: &str, ctx: &mut Ctx, scenario: &Value) -> Result<(), St
         "C03" => c03::replay(ctx, scenario),
         "C04" => c04::replay(ctx, scenario),
         "C05" => c05::replay(ctx, scenario),
+        "C06" => c06::replay(ctx, scenario),
+        "C10" => c10::replay(ctx, scenario),
+        "C12" => c12::replay(ctx, scenario),
+        "C13" => c13::replay(ctx, scenario),
+        "C14" => c14::replay(ctx, scenario),
         _ => Err(format!("no replay for {prop}")),
     }
 }
